@@ -318,6 +318,12 @@ def run_check(check, tier, seed, repo=DEFAULT_REPO, workers=None, write_evidence
             violations_total += 1
             if v["key"] not in seen_keys:
                 seen_keys[v["key"]] = (r, v)
+    if seen_keys:
+        counts = {}
+        for r in results:
+            for v in r.get("violations", []):
+                counts[v["key"]] = counts.get(v["key"], 0) + 1
+        log("violation keys: " + ", ".join("%s x%d" % (k, n) for k, n in sorted(counts.items())))
     exit_code = EXIT_OK
     known_matched = []
     reported = []
@@ -329,7 +335,7 @@ def run_check(check, tier, seed, repo=DEFAULT_REPO, workers=None, write_evidence
                 log("KNOWN-FINDING: property=%s key=%s %s" % (check.ID, key, kf[0]["what"] or v["detail"][:200]))
                 known_matched.append(key)
                 continue
-            if len(reported) >= 3:
+            if len(reported) >= 8:
                 exit_code = EXIT_VIOLATION
                 continue
             case, tried = minimise(check, r["case"], v, env)
